@@ -1293,8 +1293,9 @@ class NumberOrderedForm(Operator):
                 partial = partial._multiply_op(i, power)
             # Now multiply by the number part
             partial = partial._multiply_expr(coeff)
-            # Finally, multiply by annihilation operators
-            for i, power in enumerate(powers):
+            # Finally, multiply by annihilation operators, which are stored in
+            # reverse order of the operators (last operator leftmost).
+            for i, power in reversed(list(enumerate(powers))):
                 if not power > 0:
                     continue
                 partial = partial._multiply_op(i, power)
